@@ -220,9 +220,16 @@ class GridSpec:
         geopolygon = geopolygon.to_crs(self.crs, check_and_fix=True)
         bbox = geopolygon.boundingbox
 
+        areal = geopolygon.area > 0
         for tile_index, tile_geobox in self.tiles(bbox, geobox_cache):
-            if not geopolygon.disjoint(tile_geobox.extent):
-                yield (tile_index, tile_geobox)
+            extent = tile_geobox.extent
+            if geopolygon.disjoint(extent):
+                continue
+            if areal and geopolygon.touches(extent):
+                # contact along an edge or at a corner only is not an overlap
+                # (bounding box queries leave such tiles out as well)
+                continue
+            yield (tile_index, tile_geobox)
 
     def __str__(self) -> str:
         return f"GridSpec(crs={self.crs}, tile_shape={self._shape}, resolution={self.resolution})"
